@@ -105,7 +105,7 @@ pub fn gen_string(rng: &mut Rng, k: &Knobs, out: &mut Vec<char>, max_elems: usiz
     out.push('"');
 }
 
-const KEYS: [&str; 10] = ["a", "b", "", "k", "key", "a", "a-rather-long-key-beyond-16-bytes", "é", "k\\n", "\\u0061"];
+const KEYS: [&str; 13] = ["a", "b", "", "k", "key", "a", "a-rather-long-key-beyond-16-bytes", "é", "k\\n", "\\u0061", "http://example.org/ns#prénom_de_l_auteur", "十六バイトより長いキー", "key😀with€every£width-of-char"];
 
 fn gen_value(rng: &mut Rng, k: &Knobs, depth: usize, out: &mut Vec<char>) {
     let room = out.len() < k.budget;
